@@ -595,7 +595,8 @@ Expect == pc = "end" =>
   PrintT(ToJson([kind |-> d.kind, mod |-> ModOf, layers |-> LayersJson(d), nest |-> d.nest, npos |-> d.npos,
                  kwsh |-> d.kwsh, raises |-> d.raises, opt |-> d.opt, ctx |-> d.ctx, strict |-> d.strict,
                  fault |-> d.fault, fcall |-> d.fcall, second |-> d.second,
-                 chain |-> ChainJson, nl |-> NL, bind |-> K.bind, instr |-> K.instr,
+                 chain |-> ChainJson, nl |-> NL, bind |-> K.bind, instr |-> K.instr, nat |-> K.nat,
+                 modsens |-> K.modsens,
                  cacheable |-> K.cacheable, opt2 |-> IF d.second = "flip" THEN Flip(d.opt) ELSE d.opt,
                  calls |-> <<CallJson(hist[1]), CallJson(hist[2])>>]))
 =============================================================================
